@@ -13,7 +13,8 @@ package main
 //   mirror law    Rank(b,a) is the mirror image of Rank(a,b)
 //   symmetry      Compare(a,b) = Compare(b,a)
 //   natural order nil before every defined value; false < true; numeric order within one numeric kind (NaN left out);
-//                 byte-wise order of strings; a proper prefix of a sequence ranks before the sequence
+//                 byte-wise order of strings; sequences / associations / catalogs lexicographically over these, a proper
+//                 prefix first
 //   agreement     Compare(a,b) = true  <=>  Rank(a,b) = Equal     only for pairs "of one type" in the sense of
 //                                                                  the theorem's same_type hypothesis: no two
 //                                                                  leaves of one family with different widths
@@ -346,7 +347,8 @@ func pairLaws(cl age.CollatorLike[any], na, nb *node, a, b any) []string {
 
 // naturalRank is the order the property fixes by name: nil before every defined value; false < true; numeric order
 // within one integer / unsigned / float kind (NaN left out: the property's natural order does not place it);
-// byte-wise order of strings; a proper prefix of a sequence before the sequence.  "" = the property does not say.
+// byte-wise order of strings; sequences, associations and catalogs lexicographically over these, a proper prefix
+// first.  "" = the property does not say (or the generator cannot tell: maps, sets, mixed kinds, NaN).
 func naturalRank(na, nb *node) string {
 	cmp := func(lt, gt bool) string {
 		switch {
@@ -389,22 +391,48 @@ func naturalRank(na, nb *node) string {
 		y := nb.prim.(string)
 		return cmp(x < y, x > y)
 	}
-	// sequences of one kind (not sets: their order is the ranking itself): a proper prefix comes first
-	switch na.kind {
-	case "slice", "array", "list", "queue", "ints", "strs", "flts", "lint", "iis":
-		short, long, res := na, nb, "Lesser"
-		if len(na.kids) > len(nb.kids) {
-			short, long, res = nb, na, "Greater"
-		}
-		if len(short.kids) == len(long.kids) || !wfKeys(na) || !wfKeys(nb) {
-			return ""
-		}
-		for i, k := range short.kids {
-			if hasMap(k) || goSyntaxFull(k) != goSyntaxFull(long.kids[i]) {
-				return "" // (maps print in insertion order: textual equality is not attempted for them)
+	// sequences of one kind: lexicographic, a proper prefix first (not sets - their order is the ranking itself -,
+	// not stacks - their array view is reversed -, and nothing is said where an element pair is left open, e.g. maps)
+	lex := func(xs, ys []*node) string {
+		for i := 0; i < len(xs) && i < len(ys); i++ {
+			switch r := naturalRank(xs[i], ys[i]); r {
+			case "Equal":
+			default:
+				return r // "", "Lesser" or "Greater"
 			}
 		}
-		return res
+		return cmp(len(xs) < len(ys), len(xs) > len(ys))
+	}
+	switch na.kind {
+	case "slice", "array", "list", "queue", "ints", "strs", "flts", "lint", "iis":
+		return lex(na.kids, nb.kids)
+	case "assoc":
+		if r := naturalRank(na.kids[0], nb.kids[0]); r != "Equal" {
+			return r
+		}
+		return naturalRank(na.vals[0], nb.vals[0])
+	case "catalog":
+		// a catalog ranks as the sequence of its associations, in their order (a description that names one key twice
+		// is not the catalog that was built from it - the second SetValue overwrote the first: nothing is said)
+		for _, n := range []*node{na, nb} {
+			seen := map[string]bool{}
+			for _, k := range n.kids {
+				t := goSyntaxFull(k)
+				if seen[t] {
+					return ""
+				}
+				seen[t] = true
+			}
+		}
+		for i := 0; i < len(na.kids) && i < len(nb.kids); i++ {
+			if r := naturalRank(na.kids[i], nb.kids[i]); r != "Equal" {
+				return r
+			}
+			if r := naturalRank(na.vals[i], nb.vals[i]); r != "Equal" {
+				return r
+			}
+		}
+		return cmp(len(na.kids) < len(nb.kids), len(na.kids) > len(nb.kids))
 	}
 	return ""
 }
